@@ -28,4 +28,10 @@ pub trait CongestionController: Send + Sync + core::fmt::Debug {
     fn on_enter_recovery(&mut self, now: Instant);
 
     fn set_remote_window(&mut self, win: usize);
+
+    /// (cwnd, ssthresh, rwnd) in MSS units, for verification probes only.
+    #[cfg(librqbit_utp_verif)]
+    fn verif_raw(&self) -> Option<(f64, f64, f64)> {
+        None
+    }
 }
